@@ -179,6 +179,36 @@ def ob_o2j_mapset(ctx):
     ctx.check("mapset.title", out.title == "T" and out.level == [1, 2, 3])
 
 
+def ob_generic_mapset(game, ctx):
+    """reamber.base.MapSet holding charts of one game: every chart is rated by its own rate() (game extras included)."""
+    from reamber.base.MapSet import MapSet
+
+    m1 = _chart(ctx, game, "full")
+    m2 = m1.deepcopy()
+    d = ctx.real("shift")
+    m2.stack().offset += d
+    r = ctx.real("r")
+    ctx.assume(r > 0)
+    if game == "osu":
+        p = ctx.real("preview")
+        ctx.assume(p >= 0)
+        m1.preview_time = p
+        m2.preview_time = p + 1
+    ms = MapSet([m1, m2])
+    snaps = [MapSnap(m) for m in ms.maps]
+    out = ms.rate(r)
+    ctx.check("mapset.type", type(out) is MapSet)
+    ctx.check("mapset.maps.len", len(out.maps) == 2)
+    ctx.check("mapset.source.maps-untouched", ms.maps[0] is m1 and ms.maps[1] is m2)
+    for i, (s, m) in enumerate(zip(snaps, ms.maps)):
+        s.same(ctx, m, "source.map%d" % i)
+    for i, (s, m) in enumerate(zip(snaps, out.maps)):
+        ctx.check("rated.map%d.type" % i, type(m) is type(ms.maps[i]))
+        _check_scaled(ctx, s, m, r, "rated.map%d" % i)
+        if game == "osu":
+            ctx.check("rated.map%d.preview_time" % i, ctx.eq(m.preview_time * r, ms.maps[i].preview_time))
+
+
 def _chart_like_sparse(ctx):
     u = ctx.reals("u", 2)
     bb = ctx.real("bpmx")
@@ -196,6 +226,8 @@ def obligations(tier, seed):
         obs.append(Obligation("C13/compose/%s" % g, partial(ob_compose, g), bound="rate(a).rate(b) vs rate(a*b), a,b>0 symbolic, full chart"))
     obs.append(Obligation("C13/mapset/sm", ob_sm_mapset, bound="SMMapSet with 2 charts sharing one tempo list; offset, sample window symbolic"))
     obs.append(Obligation("C13/mapset/o2j", ob_o2j_mapset, bound="O2JMapSet with 2 charts"))
+    for g in GAMES:
+        obs.append(Obligation("C13/mapset/generic/%s" % g, partial(ob_generic_mapset, g), bound="reamber.base.MapSet of 2 %s charts (full shape), symbolic times and rate" % g))
     from . import c13_files
 
     obs.extend(c13_files.obligations(tier, seed))
